@@ -5,13 +5,14 @@ CONSTANTS
   Calls <- Calls_2x21
   ChanCap = 1
   MaxTasks = 3
-  Cancellable = {}
+  Cancellable = {"s2"}
   RegisterFirst = TRUE
 INVARIANTS
   TypeOK
   OwnResult
   NoPanic
   NoLostWakeup
+  NoOrphanTask
 PROPERTIES
   EveryCallReturns
   ResultWrittenOnce
